@@ -84,16 +84,22 @@ func init() {
 		weight int
 	}{{"standard", 2}, {"fullrt", 2}, {"dual", 1}} {
 		v := v
+		var dualProbes []string
+		if v.name == "dual" {
+			// rule best-known-dual-local (c04World.check): the local-storage half of
+			// best-known on dual.SearchValue
+			dualProbes = []string{"probe_dual_local_bestknown_checked", "probe_dual_local_valid_lan_table_empty"}
+		}
 		sim.Register(&sim.Scenario{Prop: "C04", Name: "history-" + v.name, Weight: v.weight, Run: func(s *sim.Sim) { c04RunHistory(s, v.name) },
 			Real: []string{"the same client instance across 2-5 consecutive GetValue/SearchValue/routing.GetPublicKey calls for different keys (everything a client keeps between searches)"},
 			Stub: []string{"remote peers (scripted per search; replaying bytes seen in earlier searches)", "record validators (harness rank validator under /r, the real PublicKeyValidator under /pk)"},
-			Faults: []string{"fault_rec_invalid", "fault_rec_miskeyed", "fault_rec_empty", "fault_rpc_error", "fault_cancel", "time_advance",
+			Faults: append([]string{"fault_rec_invalid", "fault_rec_miskeyed", "fault_rec_empty", "fault_rpc_error", "fault_cancel", "time_advance",
 				"probe_history_searches", "probe_history_other_key_than_before", "probe_history_same_key_again", "probe_history_found_after_other_key_found",
 				"probe_history_replay_valid_for_other_key", "probe_history_replay_rejected_elsewhere_valid_here", "probe_history_replay_same_key_still_valid",
 				"probe_history_replay_same_key_expired_since", "probe_history_replay_verbatim_record", "probe_history_pk_other_identity_key_after_its_search",
 				"probe_history_answered_after_search_end", "probe_history_getpublickey",
 				"probe_key_outside_namespaces", "probe_key_outside_record_acceptable_to_unregistered_validator",
-				"probe_opt_offline", "probe_opt_expired", "probe_opt_offline_local_not_valid", "probe_local_never_valid", "probe_local_outlived_max_age", "probe_stamp_valid_value_held_past_requesters_max_age", "probe_stamp_valid_value_from_the_future", "probe_stamp_valid_value_unparsable"},
+				"probe_opt_offline", "probe_opt_expired", "probe_opt_offline_local_not_valid", "probe_local_never_valid", "probe_local_outlived_max_age", "probe_stamp_valid_value_held_past_requesters_max_age", "probe_stamp_valid_value_from_the_future", "probe_stamp_valid_value_unparsable"}, dualProbes...),
 		})
 	}
 }
@@ -613,6 +619,7 @@ func c04RunHistory(s *sim.Sim, variant string) {
 			}
 		}
 		key, target := hk.Key, hk.PK
+		w.lanEmptyAtStart = w.sut.lanSize != nil && w.sut.lanSize() == 0
 		w.op = w.ops.Go(s, name, func() (any, error) {
 			w.startAt = s.Now()
 			w.localValidAtStart = w.localStored && !w.localPlanted && w.validate(key, w.localVal) == nil
